@@ -516,6 +516,7 @@ def corrupt(rnd, seq):
 
 
 def run(ctx):
+    ctx.reserve(0.8)          # the strata that come last (overlapping operations) keep a fifth of the wall budget
     contracts.parse_rule_returns_check()
     real = Real()
     b = BOUNDS[ctx.tier]
@@ -601,6 +602,7 @@ def run(ctx):
         via = 'dict' if rnd.random() < 0.8 else rnd.choice(['file-json', 'load-json', 'parse_rule'])
         check_string_list(ctx, real, value, dict(s='LS', value=value, via=via))
     ctx.stratum('LS', exhaustive=False)
+    ctx.release()
     # O: overlapping loads, last (the line-level scheduler slows everything that runs after it is installed)
     from pv.mon import sched
     ctx.stratum('O', exhaustive=False)
